@@ -237,4 +237,18 @@ pub fn run(r: &mut Runner) {
             }
         }
     });
+    {
+        let org = crate::organic::states(1);
+        let b: Vec<[f64; 2]> = if quick { org.iter().step_by(5).cloned().collect() } else { org.clone() };
+        let (na, nb) = (org.len(), b.len());
+        r.notes.push(format!("organic operands: {} chain states (depth 1 from the C01 seeds) x {} of them", na, nb));
+        r.par("organic pairs (chain results as operands)", na, (na * nb) as u64, |i, l| {
+            for (j, y) in b.iter().enumerate() {
+                for call in 0..6usize {
+                    let v = judge(call, org[i], *y, Some(l));
+                    rec.record(l, (1u64 << 61) + ((i * nb + j) * 6 + call) as u64, v);
+                }
+            }
+        });
+    }
 }
